@@ -10,6 +10,7 @@ import (
 func c20Extra(r *core.Run, ext *core.Ext, rel string) {
 	p := r.P
 	defer c20R9(r, ext) // rules of the defect hunt (c20_r9.go)
+	defer c20R11(r, ext) // D4/K6/size-arguments-non-negative (c20_r11.go)
 	r.Check("D4/K2/no-word-dropped", "the splitter of util/stringx hands out every non-empty piece: wherever the word buffer's length decides whether the buffered piece is appended, a buffer holding a single byte is appended and an empty one is not (evaluated for Len() = 1 and 0) – a trailing one-letter word must survive the camel/snake round trip", func(o *core.O) {
 		isLen := core.Or(core.CallMethod("bytes.Buffer", "Len"), core.CallMethod("strings.Builder", "Len"))
 		isString := core.Or(core.CallMethod("bytes.Buffer", "String"), core.CallMethod("strings.Builder", "String"))
